@@ -103,6 +103,9 @@ class Check(PropertyCheck):
                 d = G.gen_simple(rng, kind=rng.choice(G.EMPTY_KINDS))
             else:
                 d = G.gen_simple(rng, scale=1.0, center_scale=rng.choice([0, 10]))
+            if d['kind'] in ('ellipse', 'rectangle') and not d.get('size_np') and rng.random() < 0.12:
+                # needle-like shapes: axis ratio up to 1e9 (an algebraically equivalent conic form cancels catastrophically)
+                d['h'] = d['w'] * rng.choice([1e-6, 1e-9, 1e9, 1e7])
             qs = rng.choice(['scalar', 'scalar', 'empty', '1d', '1d', '2d', '3d', '2dF', '2dT', '1dS'])
             npts = {'scalar': 1, 'empty': 0, '1d': rng.randint(1, 40), '2d': 12, '3d': 8,
                     '2dF': 12, '2dT': 12, '1dS': 9}[qs]
@@ -186,7 +189,10 @@ class Check(PropertyCheck):
             out['ans'] = [bool(v) for v in np.ravel(r)]
         out['model_region'] = G.model(case['region'], reg)
         # the polygon form of a rectangle / regular polygon answers the same (C01Rect, C01Regular)
-        if hasattr(reg, 'to_polygon') and shape is not None:
+        # (the polygon of a rectangle whose sizes are fixed-width numpy INTEGERS is left out: `corners` negates the
+        # width, which wraps around for unsigned types - a defect of a derived quantity that no clause of C01 covers;
+        # see DESIGN 12.5)
+        if hasattr(reg, 'to_polygon') and shape is not None and case['region'].get('size_np') in (None, 'float32'):
             try:
                 out['as_polygon'] = [bool(v) for v in np.ravel(reg.to_polygon().contains(pc))]
             except Exception as e:
@@ -245,8 +251,19 @@ class Check(PropertyCheck):
             if not real.get('dtype_bool', True):
                 bad('result_dtype_not_bool', '')
         spec = self._margins(case)
+        dd = case['region']
+
+        def threshold(p):
+            thr = MARGIN
+            if dd['kind'] in ('ellipse', 'rectangle') and min(dd['w'], dd['h']) * 1e4 < max(dd['w'], dd['h']):
+                # needle-like shapes: the rounding of the ANGLE (ulp of its value in radians) moves a point at distance D
+                # from the centre by D * ulp across the needle, i.e. by D * ulp / (short semi-axis) in normalised units
+                ang = abs(dd['angle'][0]) * {'deg': math.pi / 180, 'rad': 1.0, 'arcmin': math.pi / 10800, 'hourangle': math.pi / 12}[dd['angle'][1]]
+                dist = math.hypot(p[0] - dd['c'][0], p[1] - dd['c'][1]) + max(dd['w'], dd['h'])
+                thr = max(MARGIN, 1e-12 * max(ang, 1.0) * dist / min(dd['w'], dd['h']))
+            return thr
         for p, ra, (sa, mg) in zip(case['pts'], real['ans'], spec):
-            if mg < MARGIN:
+            if mg < threshold(p):
                 continue
             if ra != sa:
                 bad('membership_wrong', f'point={p} real={ra} spec={sa} margin={float(mg):.3g}', point=p)
@@ -256,7 +273,7 @@ class Check(PropertyCheck):
             bad('to_polygon_exception', ap)
         elif ap is not None:
             for p, pa, (sa, mg) in zip(case['pts'], ap, spec):
-                if mg >= MARGIN and pa != sa:
+                if mg >= threshold(p) and pa != sa:
                     bad('to_polygon_membership_differs', f'point={p} polygon={pa} spec={sa} margin={float(mg):.3g}', point=p)
                     break
         return V
